@@ -1335,7 +1335,7 @@ class Engine(CondMixin, Interp):
             return (False, False, False)
         r = m = a = False
         env = self.P.local_env(fi)
-        fresh = _fresh_locals(fi.node)
+        fresh = _fresh_locals(fi.node) | self._fresh_from_calls(fi, env)
         for n in ast.walk(fi.node):
             if isinstance(n, ast.Assert) or (isinstance(n, ast.Raise) and "NotImplementedError" not in norm(n)):
                 r = True
@@ -1374,6 +1374,41 @@ class Engine(CondMixin, Interp):
                     m = True
         self._summ_cache[fi.qname] = (r, m, a)
         return r, m, a
+
+    def _returns_fresh(self, g: FuncInfo, _depth: int = 0) -> bool:
+        """every return of g hands back a container that g itself made (a new set / list / dict): the caller may fill it"""
+        rets = [x for x in ast.walk(g.node) if isinstance(x, ast.Return) and x.value is not None]
+        if not rets or _depth > 2:
+            return False
+        fr = _fresh_locals(g.node) | (self._fresh_from_calls(g, self.P.local_env(g), _depth + 1) if _depth < 2 else set())
+        for x in rets:
+            v = x.value
+            if isinstance(v, ast.Name) and v.id in fr:
+                continue
+            if isinstance(v, (ast.List, ast.Dict, ast.Set, ast.ListComp, ast.DictComp, ast.SetComp)):
+                continue
+            if isinstance(v, ast.Call) and call_name(v) in ("list", "dict", "set", "sorted", "copy", "deepcopy"):
+                continue
+            return False
+        return True
+
+    def _fresh_from_calls(self, fi: FuncInfo, env, _depth: int = 0) -> set[str]:
+        """locals bound (once) to the result of an internal function that returns a container of its own making"""
+        out: dict[str, bool] = {}
+        for n in ast.walk(fi.node):
+            if isinstance(n, ast.Assign) and len(n.targets) == 1 and isinstance(n.targets[0], ast.Name):
+                nm = n.targets[0].id
+                ok = False
+                if isinstance(n.value, ast.Call):
+                    try:
+                        tgt = self.P.resolve_call(n.value, env, fi, count=False)
+                    except Exception:  # noqa: BLE001
+                        tgt = None
+                    if tgt and tgt[0] == "func":
+                        ok = all(self._returns_fresh(c_, _depth) for c_ in tgt[1][:1])
+                out[nm] = out.get(nm, True) and ok
+        params = set(fi.params)
+        return {k for k, v in out.items() if v and k not in params}
 
     def _private_bookkeeping(self, fi: FuncInfo, target: ast.AST) -> bool:
         """a QUERY of the data model that writes an underscore-private attribute of its own object (a call counter, a memo)
